@@ -169,18 +169,33 @@ def run(rep, br, proofs, rng, tier):
                 m = mk_case("%s.u%d" % (c["id"], len(mcases)), "unpack", lines, smp[0]); m["expect"] = "(%s %s)" % (smp[1], smp[2]); m["parent"] = c
                 mcases.append(m)
     if tier == "quick": mcases = mcases[::7]
+    # model tie: file lookup (SourceFileSet.File vs file_of) on the range edges of every file of the set
+    seen_sets = set()
+    for c in cases:
+        out = impl.get(c["id"]) or ""
+        if not out.startswith("(traced"): continue
+        sx = vlib.parse_sexp(out)
+        fs = ["files"] + [[f[1], f[2]] for f in sx[3][1:]]
+        key = str(fs)
+        if key in seen_sets: continue
+        seen_sets.add(key)
+        for f in sx[3][1:]:
+            if len(f) < 6: continue
+            for smp in f[5][1:]:
+                m = mk_case("%s.f%d" % (c["id"], len(mcases)), "fileof", fs, smp[0]); m["expect"] = smp[1]; m["parent"] = c; m["fileof"] = True
+                mcases.append(m)
     model, _ = vlib.run_model([m["line"] for m in mcases], timeout=1200)
     dis = [m for m in mcases if model.get(m["id"]) != m["expect"]]
     for c, why in fails[:10]:
         rep.violation({"property": "C16", "kind": "oracle", "why": why, "case": c["line"][:1500], "script": c["src"] + "".join("\n--- module ---\n" + m for m in c["mods"])})
     if not fails:
         for m in dis[:10]:
-            rep.violation({"property": "C16", "kind": "correspondence", "why": "line table model (Pos/LineTable.v unpack) and SourceFileSet.Position disagree", "case": m["line"][:1500], "impl": m["expect"], "model": model.get(m["id"])}, found=False)
+            rep.violation({"property": "C16", "kind": "correspondence", "why": "line table model (Pos/LineTable.v unpack / file_of) and SourceFileSet.Position / File disagree", "case": m["line"][:1500], "impl": m["expect"], "model": model.get(m["id"])}, found=False)
     rep.coverage.update({
         "evaluations": len(cases) + len(mcases), "distinct_nontrivial": ok,
         "rule": "generated one-statement-per-line layouts (random blank lines, line comments, block comments before, after and across statements, filler declarations, literal constants as operands of the failing operator) in which an error (failing operator, failing builtin, failing functions of the time and strings modules (plain Go errors), bad index, call of a non-callable, wrong argument count, thrown value) escapes from call depth 0,1,2,3,5,8, in the main file, inside a function of an imported source module or while a module body runs during its import (made at top level or inside a function), optionally through 1-3 recursive activations of one call site, x optimizer on/off x encode/decode x k prepended blank lines; expected lines computed by the generator; positions must lie inside the named file; real line tables and sampled offsets re-resolved by the Coq unpack; non-trivial = a trace was produced and matched",
         "samples": [cases[0]["src"], str(cases[0]["expected"])],
-        "traces_matched": ok, "unpack_compared": len(mcases), "disagreements": len(dis), "oracle_failures": len(fails)})
+        "traces_matched": ok, "unpack_compared": len([m for m in mcases if not m.get("fileof")]), "file_lookups_compared": len([m for m in mcases if m.get("fileof")]), "disagreements": len(dis), "oracle_failures": len(fails)})
 
 def replay(payload, br):
     print(payload.get("why")); print(payload.get("script") or "")
